@@ -145,8 +145,15 @@ func (tr *fnTrans) applyContractSig(c *Contract, key string, args []Term, sig *t
 	if c.Extern || c.Trusted {
 		tr.assumed[key] = true
 	}
+	newUse := false
 	for _, u := range c.Uses {
+		if !tr.uses[u] {
+			newUse = true
+		}
 		tr.uses[u] = true
+	}
+	if newUse {
+		tr.preludeHeaps(c.Uses) // the callee's specification modules may mention heaps this function never touches
 	}
 	in0 := "true"
 	if tr.cur != nil {
